@@ -502,10 +502,11 @@ func (e *Env) ident(name string) (TV, error) {
 						e.fr.letSorts = map[string]Sort{}
 					}
 					e.fr.letTypes[name], e.fr.letSorts[name] = li.typ, li.sort
-				} else if e.vc.letPending < 3 {
-					e.vc.letPending++
+				} else if noteLetMiss(e.vc.fname, name) <= 2 {
+					// ask for another pass (this one is discarded); a name that
+					// stays unbound after two more passes is bound by no call
 					e.vc.newHeaps = true
-					return TV{e.vc.fresh("deadlet:"+name, SInt), nil}, nil
+					return TV{}, fmt.Errorf("let name %q not yet bound in this pass", name)
 				}
 			}
 			if !known {
@@ -1270,6 +1271,17 @@ func lookupLetInfo(fname, name string) (letInfo, bool) {
 	defer letInfoMu.Unlock()
 	li, ok := letInfoCache[fname+"\x00"+name]
 	return li, ok
+}
+
+var letMisses = map[string]int{}
+
+// noteLetMiss counts the passes in which a let name was used before any call
+// bound it.
+func noteLetMiss(fname, name string) int {
+	letInfoMu.Lock()
+	defer letInfoMu.Unlock()
+	letMisses[fname+"\x00"+name]++
+	return letMisses[fname+"\x00"+name]
 }
 
 func recordLetInfo(fname, name string, srt Sort, typ types.Type) {
